@@ -53,68 +53,58 @@ Fixpoint batches_eqb (a b : list (N * list citem)) : bool :=
 Definition new_out (s s' : pst) : list (N * list citem) :=
   map (fun e => (fst (fst e), snd e)) (skipn (length (p_out s)) (p_out s')).
 
-Record hst := mkH { h_s : pst; h_tm : list nat; h_closed : list nat }.
+Record hst := mkH { h_s : pst; h_tm : list nat }.
 
-(* [guard]: replay for a channelWriter whose Add ignores the call once the writer has been closed *)
-Definition hstep (guard : bool) (cf : N -> bcfg) (h : hst) (e : cev) : option (hst * list (N * list citem)) :=
+Definition hstep (cf : N -> bcfg) (h : hst) (e : cev) : option (hst * list (N * list citem)) :=
   let s := h_s h in
   match e with
-  | EGet t ch => option_map (fun s' => (mkH s' (h_tm h) (h_closed h), new_out s s')) (pstep cf s (PGet t ch))
+  | EGet t ch => option_map (fun s' => (mkH s' (h_tm h), new_out s s')) (pstep cf s (PGet t ch))
   | EAdd t x =>
       match lookup (p_refs s) t with
       | Some (ch, i) =>
-          if guard && existsb (Nat.eqb i) (h_closed h) then
-            Some (mkH (mkP (p_map s) (p_inst s) (p_ich s) (remove_k (p_refs s) t) (p_timers s) (p_next s) (p_out s))
-                      (h_tm h) (h_closed h), [])
-          else
-            match pstep cf s (PAdd t x) with
-            | Some s' =>
-                (* the driver learns of a timer by finding w.timerStop set after the call: a timer armed and
-                   cancelled within the same call (size-triggered flush) is not numbered *)
-                let tm' := if length (p_timers s) <? length (p_timers s') then
-                             match p_timers s', lookup (p_inst s') i with
-                             | (tm, _) :: _, Some w =>
-                                 match cw_timer w with
-                                 | Some t => if t =? tm then h_tm h ++ [tm] else h_tm h
-                                 | None => h_tm h
-                                 end
-                             | _, _ => h_tm h
-                             end
-                           else h_tm h in
-                Some (mkH s' tm' (h_closed h), new_out s s')
-            | None => None
-            end
+          match pstep cf s (PAdd t x) with
+          | Some s' =>
+              (* the driver learns of a timer by finding w.timerStop set after the call: a timer armed and
+                 cancelled within the same call (size-triggered flush) is not numbered *)
+              let tm' := if length (p_timers s) <? length (p_timers s') then
+                           match p_timers s', lookup (p_inst s') i with
+                           | (tm, _) :: _, Some w =>
+                               match cw_timer w with
+                               | Some t => if t =? tm then h_tm h ++ [tm] else h_tm h
+                               | None => h_tm h
+                               end
+                           | _, _ => h_tm h
+                           end
+                         else h_tm h in
+              Some (mkH s' tm', new_out s s')
+          | None => None
+          end
       | None => None
       end
   | EFire k =>
       match nth_error (h_tm h) k with
       | Some tm =>
           match pstep cf s (PFire tm) with
-          | Some s' => Some (mkH s' (h_tm h) (h_closed h), new_out s s')
+          | Some s' => Some (mkH s' (h_tm h), new_out s s')
           | None => Some (h, [])       (* that goroutine has already finished: nothing happens *)
           end
       | None => None
       end
-  | EDel ch f =>
-      let cl := match lookupN (p_map s) ch with Some i => i :: h_closed h | None => h_closed h end in
-      option_map (fun s' => (mkH s' (h_tm h) cl, new_out s s')) (pstep cf s (PDel ch f))
-  | EClose f =>
-      option_map (fun s' => (mkH s' (h_tm h) (map snd (p_map s) ++ h_closed h), new_out s s')) (pstep cf s (PClose f))
+  | EDel ch f => option_map (fun s' => (mkH s' (h_tm h), new_out s s')) (pstep cf s (PDel ch f))
+  | EClose f => option_map (fun s' => (mkH s' (h_tm h), new_out s s')) (pstep cf s (PClose f))
   end.
 
-Fixpoint hrun (guard : bool) (cf : N -> bcfg) (h : hst) (evs : list (cev * list (N * list citem))) : bool :=
+Fixpoint hrun (cf : N -> bcfg) (h : hst) (evs : list (cev * list (N * list citem))) : bool :=
   match evs with
   | [] => true
   | (e, obs) :: evs' =>
-      match hstep guard cf h e with
-      | Some (h', out) => batches_eqb (sort_b out) (sort_b obs) && hrun guard cf h' evs'
+      match hstep cf h e with
+      | Some (h', out) => batches_eqb (sort_b out) (sort_b obs) && hrun cf h' evs'
       | None => false
       end
   end.
 
-Definition corr (c : case) : bool :=
-  let cf := cfg_of (c_cfg c) in
-  hrun false cf (mkH p_init [] []) (c_evs c) || hrun true cf (mkH p_init [] []) (c_evs c).
+Definition corr (c : case) : bool := hrun (cfg_of (c_cfg c)) (mkH p_init []) (c_evs c).
 
 (* ---- the property as an abstract machine over the observed batches ---- *)
 Definition upd_pend (p : list (N * list citem)) (ch : N) (l : list citem) : list (N * list citem) :=
